@@ -47,16 +47,32 @@ def run(ctx, rep):
                f'n_verifier_friendly_commitment_layers is{"" if has_n else " not"} hashed; Stone {"6" if stone6 else "5"} requires it to be '
                f'{"included" if stone6 else "absent"}', fn.loc(), cfg)
         # chaining + length in the chain terminator
-        ped = [(bi, t) for bi, t in fn.calls() if (t['f'].get('resolved') or '').endswith('pedersen_hash::pedersen_hash')]
-        acc_ok = bool(ped)
+        # the chain may be written as a loop in get_hash or as a fold over the main page (closure accumulator)
+        fold_closures = set()
+        for bi, t in fn.calls():
+            if t['f'].get('name') in ('fold', 'try_fold') and len(t.get('args', [])) == 3:
+                for x in fl.operand_leaves(t['args'][2]):
+                    if x.startswith('closure:'):
+                        fold_closures.add(x[len('closure:'):])
+        ped = []
+        acc_ok = True
         len_in_chain = False
-        for bi, t in ped:
-            a0 = fl.operand_leaves(t['args'][0])
-            a1 = fl.operand_leaves(t['args'][1])
-            if not (any(x.startswith('call:starknet_crypto::pedersen_hash::pedersen_hash') for x in a0)):
-                acc_ok = False
-            if any(x.startswith('len(a1.main_page') for x in a1):
-                len_in_chain = True
+        for body in common.bodies(db, fn):
+            bf = fl if body is fn else dataflow.Flow(db, body)
+            for bi, t in body.calls():
+                if not (t['f'].get('resolved') or '').endswith('pedersen_hash::pedersen_hash'):
+                    continue
+                ped.append((bi, t))
+                a0 = bf.operand_leaves(t['args'][0])
+                a1 = bf.operand_leaves(t['args'][1])
+                carried = any(x.startswith('call:starknet_crypto::pedersen_hash::pedersen_hash') for x in a0) or \
+                    any(x.startswith('call:core::iter::traits::iterator::Iterator::fold') for x in a0) or \
+                    (body.path in fold_closures and 'a2' in a0)
+                if not carried:
+                    acc_ok = False
+                if any(x.startswith('len(a1.main_page') for x in a1):
+                    len_in_chain = True
+        acc_ok = acc_ok and bool(ped)
         rep.ob('C13.chain', 'accumulator-loop-carried', acc_ok and len(ped) >= 3,
                f'{len(ped)} Pedersen calls; each takes the running hash as first argument (order and count of cells are bound)', fn.loc(), cfg)
         rep.ob('C13.chain', 'length-terminates-chain', len_in_chain, 'the main-page length is hashed into the Pedersen chain', fn.loc(), cfg)
